@@ -279,11 +279,14 @@ def read_model_check(pid, quick, which='seek'):
        the BOS page in hand instead of the Vorbis stream's;
        which='lap': lapped sample seeks among reads and raw seeks - a lapped seek lands where the plain one does and reports end of file only where nothing
        follows; pinned rule: every BOS page of another serial number taken for the next link;
+       which='fault': the same calls while the read callback fails, and a raw seek whose seek callback fails - the call in progress answers with a count, end of
+       file or a documented code, and from the first seek that succeeds afterwards everything above holds again (C12 at design level);
        which='damage': files with one audio page missing or there twice - every call ends and answers with a count or a documented code.
        TLC must refute the pinned rules."""
     out = dict(states=0, transitions=0, configs={}, pinned_rules_refuted={}); viol = []
     if which == 'seek': cfgs = ['VFRead_MC.cfg', 'VFRead_MC_span.cfg'] + ([] if quick else ['VFRead_MC_bsizes.cfg', 'VFRead_MC_half.cfg', 'VFRead_MC_2.cfg', 'VFRead_MC_half2.cfg']); pinned = 'VFRead_MC_pinned_vi.cfg'
     elif which == 'lap': cfgs = ['VFRead_MC_lap.cfg'] + ([] if quick else ['VFRead_MC_lap2.cfg']); pinned = 'VFRead_MC_pinned_bos.cfg'
+    elif which == 'fault': cfgs = ['VFRead_MC_fault_q.cfg'] + ([] if quick else ['VFRead_MC_fault.cfg']); pinned = None
     elif which == 'damage': cfgs = ['VFRead_MC_damage_q.cfg'] + ([] if quick else ['VFRead_MC_damage.cfg']); pinned = None
     else: cfgs = ['VFRead_MC_stream_q.cfg'] + ([] if quick else ['VFRead_MC_stream.cfg']); pinned = 'VFRead_MC_pinned_ser.cfg'
     for c in cfgs:
@@ -710,14 +713,17 @@ def check_c12(pid, tier, seed, replay=None):
         ls = [f'open 0 {fid(f)} seek', f'ps 0 f:{L}:1:2:0', 'rf 0 64', f'fault 0 {kind} {k} 1 rel', f'ps 0 f:{L2}:2:3:0', 'faultoff 0',
               f'{op} 0 p:{Lr}:-1:{d}', 'rf 0 4096', 'rf 0 64', 'tell 0', f'ps 0 f:{L2}:1:3:0', 'rf 0 64', 'clear 0']
         scs.append(Scenario(f'firstpage-{f}-{L}{L2}{Lr}-k{kind}-at{k}-{op}-{d}', [f], ls, 'fault-firstpage', budget=8, tags=('fault',)))
-    res = run_batch(pid, tier, scs, bindir)
+    with ThreadPoolExecutor(max_workers=2) as ex0:
+        fmc = ex0.submit(read_model_check, pid, quick, 'fault')
+        res = run_batch(pid, tier, scs, bindir)
+        mc, extra_viol = fmc.result()
     res['infra'] += pres['infra'] + rres['infra']
     rules = None   # every rule: a fault scenario may break anything
     def nt(s, evs): return any(e.get('e')=='FaultOff' and e.get('fired',0) > 0 for e in evs)
     return finish(pid, tier, seed, 'fault_enumeration', scs, res, rules, t0,
       'scenario = base call sequence (open; open+linear read; each kind of seek incl. page, raw, time, lapped; half-rate toggle; stream with page-spanning packets) with ONE fault plan: fault kind (read error with errno, premature zero read, one-byte read, seek -1, tell -1) x callback invocation index k of the matching callback (counted from before the open) x one-shot/persisting; then faults off -> 3 sample seeks + reads + page seek + tell + clear, which TLC holds to the full VFApi contract; callback counts come from a fault-free probe run; quick tier strides k (phase = seed), thorough enumerates every k; non-trivial = the fault actually fired; distinct = distinct script text',
       nt, COMMON_ASSUME + ['one fault plan per scenario (single fault position, optionally persisting)'],
-      extra_cov=dict(callback_counts=counts, fault_kinds=FAULT_KINDS))
+      extra_cov=dict(callback_counts=counts, fault_kinds=FAULT_KINDS, design_model=dict(states=mc['states'], transitions=mc['transitions'], configs=mc['configs'])), extra_viol=extra_viol)
 
 # ---------------------------------------------------------------- C03 damaged physical streams
 DAMAGE_KINDS = ['garbage','oggs','drop','dup','dupbos','setcont','clearcont','setseq','swap','trunc','setgp','gphuge','cleareos','seteos','setbos','setserial','flip','flipfix','zero']
